@@ -94,6 +94,28 @@ def AllHold : List Claim → List Out → Prop
   | c :: cs, o :: os => c.holds o ∧ AllHold cs os
   | _, _ => False
 
+/-! ### retention (DataFilesKeep ≠ 0, DataFilesBackup) -/
+
+/-- the key's record is written and its data file left the configured retention or was shadowed (ghost `FS.lost`, set by
+    `removeDatFile` without backup and by the O_CREATE of LoadBlockIndex over a file that sits in `oldat/`) -/
+def keyLost (s : State) (k : Key) : Bool :=
+  match AL.get s.index k with
+  | some r => r.ipos.isSome && s.fs.lost.contains r.datfileidx
+  | none => false
+
+/-- the claim "within the configured retention": nothing is claimed for a key whose data file is lost in the state the
+    operation starts from -/
+def claimR (s : State) (sp : Spec) (op : Op) : Claim :=
+  match op with
+  | .get hash => if keyLost s (keyOf hash) then .nothing else claim sp op
+  | .length hash _ => if keyLost s (keyOf hash) then .nothing else claim sp op
+  | _ => .nothing
+
+/-- the claims along a history, with the model state threaded for `keyLost` -/
+def specRunR (env : Env) : State → Spec → List Op → List Claim
+  | _, _, [] => []
+  | s, sp, op :: ops => claimR s sp op :: specRunR env (step env s op).1 (specStep sp op) ops
+
 theorem AllHold.get {cs : List Claim} {os : List Out} (h : AllHold cs os) (i : Nat) (c : Claim) (o : Out)
     (hc : cs[i]? = some c) (ho : os[i]? = some o) : c.holds o := by
   induction cs generalizing os i with
